@@ -47,10 +47,38 @@ def generators():  # noqa: ANN201
 
 
 def run_case(case: dict) -> dict:
+    from mon.fnlib import trans_b as tb
+
+    try:
+        return _run_case(case)
+    finally:
+        tb.KSAT, tb.Settings.gain = 1.75, 2.0
+
+
+def _run_case(case: dict) -> dict:
+    from mon.fnlib import basic as fl
+    from mon.fnlib import trans_b as tb
+
     rng = core.rng_for(case["seed"])
     g = gen(rng, untranslatable=case["untranslatable"])
     spec, feats = g["spec"], g["features"]
+    module_state = not case["untranslatable"] and rng.random() < 0.3
+    if module_state:
+        # rate laws that read a module-level constant / a class attribute of their module
+        vs = [c["name"] for c in spec["components"] if c["kind"] == "variable"]
+        ks = [c["name"] for c in spec["components"] if c["kind"] == "parameter" and "ia" not in c]
+        a = rng.choice(vs)
+        spec["components"].append({"kind": "reaction", "name": "vms", "fn": fl.ref(tb.t_modconst), "args": [a, rng.choice(ks)], "stoich": {a: -1.0}})
+        spec["components"].append({"kind": "derived", "name": "dma", "fn": fl.ref(tb.t_modattr), "args": [rng.choice(vs), rng.choice(ks)]})
+        feats = sorted({*feats, "module_state"})
     model = rm.build(spec)
+    if module_state:
+        # code was generated once in this process; then the values are re-bound; what is generated afterwards must follow the model
+        try:
+            generators()[rng.choice(LANGS)](copy.deepcopy(model), free_parameters=None)
+        except Exception:  # noqa: BLE001, S110
+            pass
+        tb.KSAT, tb.Settings.gain = round(rng.uniform(0.5, 3.0), 3), round(rng.uniform(0.5, 3.0), 3)
     ref = rm.Ref(spec) if not case["untranslatable"] else None
     gens = generators()
     viols: list[dict] = []
